@@ -30,10 +30,12 @@ IDiv(a, b) == a \div b
 INeg(a) == -a
 ILeq(a, b) == a <= b
 IId(a) == a
+IFma(p, q, r) == p * q + r
+RFma(p, q, r) == RAdd(RMul(p, q), r)
 I == INSTANCE PolyAlgebra WITH Zero <- 0, One <- 1, Add <- IAdd, Sub <- ISub, Mul <- IMul, Div <- IDiv,
-                               Neg <- INeg, Abs <- IAbs, Leq <- ILeq, FromInt <- IId
+                               Neg <- INeg, Abs <- IAbs, Leq <- ILeq, FromInt <- IId, Fma <- IFma
 R == INSTANCE PolyAlgebra WITH Zero <- RZero, One <- ROne, Add <- RAdd, Sub <- RSub, Mul <- RMul, Div <- RDiv,
-                               Neg <- RNeg, Abs <- RAbs, Leq <- RLeq, FromInt <- RInt
+                               Neg <- RNeg, Abs <- RAbs, Leq <- RLeq, FromInt <- RInt, Fma <- RFma
 
 \* vectors of length n with support S
 Vecs(n) == UNION { { [i \in 1..n |-> IF i \in S THEN f[i] ELSE 0] : f \in [S -> Coef] }
@@ -45,7 +47,7 @@ Next == UNCHANGED c
 ToRat(v) == [i \in 1..Len(v) |-> RInt(v[i])]
 Shift(v) == [i \in 1..Len(v) |-> v[((i) % Len(v)) + 1]]   \* another vector of the same length
 
-SchemesAgree == \A x \in Xs : I!Eval(c, x) = I!PowerSum(c, x) /\ I!Estrin(c, x) = I!PowerSum(c, x)
+SchemesAgree == \A x \in Xs : I!Eval(c, x) = I!PowerSum(c, x) /\ I!Estrin(c, x) = I!PowerSum(c, x) /\ I!HornerFma(c, x) = I!PowerSum(c, x)
 
 Pointwise ==
     \A x \in Xs : \A s \in { -1, 0, 2 } :
